@@ -185,6 +185,18 @@ func (x *Exec) applyUses(fr *Frame, st *State, env *SpecEnv, at string) {
 	}
 }
 
+func topConjuncts(e ast.Expr) []ast.Expr {
+	switch v := e.(type) {
+	case *ast.ParenExpr:
+		return topConjuncts(v.X)
+	case *ast.BinaryExpr:
+		if v.Op == token.LAND {
+			return append(topConjuncts(v.X), topConjuncts(v.Y)...)
+		}
+	}
+	return []ast.Expr{e}
+}
+
 // ---------- modifies: locations ----------
 
 type Loc struct {
@@ -569,6 +581,20 @@ func (x *Exec) run() {
 			if p.Let != "" {
 				env.names[p.Let] = env.eval(p.C.Expr)
 				continue
+			}
+			// lock state is not heap: a top-level conjunct held(l) / rheld(l) of the precondition sets the entry lock state
+			// (the default at entry is "nothing held", which `requires !held(l)` merely confirms)
+			for _, cj := range topConjuncts(p.C.Expr) {
+				if ce, ok := cj.(*ast.CallExpr); ok && len(ce.Args) == 1 {
+					if id, ok := ce.Fun.(*ast.Ident); ok && (id.Name == "held" || id.Name == "rheld") {
+						k := lockKeyOf(env.evalAddr(ce.Args[0]))
+						if id.Name == "held" {
+							st.held["W:"+k] = "true"
+						} else {
+							st.held["R:"+k] = "true"
+						}
+					}
+				}
 			}
 			x.assumeF(st, env.evalBool(p.C.Expr).formula())
 		}
